@@ -3,6 +3,7 @@ package cert
 import (
 	"container/list"
 	"crypto/sha256"
+	"encoding/binary"
 	"maps"
 	"slices"
 	"strings"
@@ -89,16 +90,18 @@ func (cache *Cache) Verify(signature hotstuff.QuorumSignature, message []byte) e
 func (cache *Cache) BatchVerify(signature hotstuff.QuorumSignature, batch map[hotstuff.ID][]byte) error {
 	// sort the list of ids from the batch map
 	ids := slices.Sorted(maps.Keys(batch))
-	var hash hotstuff.Hash
 	hasher := sha256.New()
-	// then hash the messages in sorted order
+	// then hash the (id, length, message) triples in sorted order
 	for _, id := range ids {
+		var length [8]byte
+		binary.LittleEndian.PutUint64(length[:], uint64(len(batch[id])))
+		_, _ = hasher.Write(id.ToBytes())
+		_, _ = hasher.Write(length[:])
 		_, _ = hasher.Write(batch[id])
 	}
-	hasher.Sum(hash[:])
 
 	var key strings.Builder
-	_, _ = key.Write(hash[:])
+	_, _ = key.Write(hasher.Sum(nil))
 	_, _ = key.Write(signature.ToBytes())
 
 	if cache.check(key.String()) {
